@@ -21,6 +21,20 @@ pub fn domain() -> Box<dyn Domain> {
     Box::new(D)
 }
 
+extern "C" {
+    fn mallopt(param: i32, value: i32) -> i32;
+}
+
+/// zlib allocates and frees a few hundred KiB per call; on the harness's worker thread (a
+/// non-main malloc arena) every such free trims the heap with an `madvise` system call, which
+/// dominated the run time (20 000 calls, ~2 ms each under load).  Raising glibc's trim threshold
+/// (M_TRIM_THRESHOLD = -1) keeps the memory in the arena.
+pub fn tune_malloc() {
+    unsafe {
+        mallopt(-1, 1 << 30);
+    }
+}
+
 // ------------------------------------------------------------------------------------------
 // in-memory callbacks
 
@@ -1024,6 +1038,7 @@ fn gen_inflate_cases(out: &mut dyn Write, rng: &mut Rng, n: usize, max_len: u64)
 
 impl Domain for D {
     fn gen(&self, tier: &str, seed: u64, out: &mut dyn Write) {
+        tune_malloc();
         let mut rng = Rng::new(seed ^ 0xdf16);
         let thorough = tier != "quick";
         let (n_rt, n_openx, n_bases, n_rand, n_infl) = if thorough { (4000, 2000, 40, 6000, 400) } else { (300, 150, 8, 600, 40) };
@@ -1156,6 +1171,7 @@ impl Domain for D {
         }
     }
     fn runner(&self) -> Box<dyn Runner> {
+        tune_malloc();
         Box::new(R)
     }
 }
